@@ -120,3 +120,21 @@ func VerifRandomPrimeInRange(rand io.Reader, start, length uint) (*big.Int, erro
 func (d *DisclosureProofBuilder) VerifRangeCommits() map[int][]*rangeproof.ProofCommit {
 	return d.rpCommits
 }
+
+// VerifCPRNG wraps a private instance of the fast random generator (internal/common.CPRNG).
+type VerifCPRNG struct{ c *common.CPRNG }
+
+func VerifNewCPRNG(seed *[32]byte) (*VerifCPRNG, error) {
+	c, err := common.NewCPRNG(seed)
+	if err != nil {
+		return nil, err
+	}
+	return &VerifCPRNG{c}, nil
+}
+
+func (v *VerifCPRNG) Read(buf []byte) (int, error) { return v.c.Read(buf) }
+func (v *VerifCPRNG) Counter() uint64              { return v.c.VerifCounter() }
+func (v *VerifCPRNG) SetCounter(x uint64)          { v.c.VerifSetCounter(x) }
+
+// VerifFastRandomBigInt draws from the process-wide generator.
+func VerifFastRandomBigInt(limit *big.Int) *big.Int { return common.FastRandomBigInt(limit) }
